@@ -74,7 +74,16 @@ HIST_CALLS = [apicalls.BASE, dict(apicalls.BASE, ddof=1), dict(apicalls.BASE, ar
               dict(apicalls.BASE, func="nanmax", ddof=None, min_count=None, fill_value=np.nan, expected=[0, 1, 2, 3], chunks=None),
               dict(apicalls.BASE, func="user_range", func_obj="user:user_range", array="A3", ddof=None, min_count=None, fill_value=-1, expected=[0, 1, 2, 3]),
               dict(apicalls.BASE, func="user_range", func_obj="user:user_range", ddof=None, min_count=None, fill_value=np.nan, expected=[0, 1, 2, 3]),
-              dict(apicalls.BASE, func="user_range", func_obj="user:user_range", ddof=None, min_count=None, fill_value=-2.0, expected=[0, 1, 2, 3])]
+              dict(apicalls.BASE, func="user_range", func_obj="user:user_range", ddof=None, min_count=None, fill_value=-2.0, expected=[0, 1, 2, 3]),
+              # other argument OBJECTS reused across calls: a ReindexStrategy the caller built ("let flox decide"), an unsorted pandas Index
+              # as expected_groups, a finalize_kwargs dict
+              dict(apicalls.BASE, chunks=None, method=None, reindex=None, reindex_obj="strategy:none"),
+              dict(apicalls.BASE, func="nanfirst", array="A3", method=None, reindex=None, reindex_obj="strategy:none", ddof=None, min_count=None, fill_value=-1, dtype=None),
+              dict(apicalls.BASE, method="cohorts", reindex=None, reindex_obj="strategy:none"),
+              dict(apicalls.BASE, expected=None, expected_obj="index:unsorted"),
+              dict(apicalls.BASE, expected=None, expected_obj="index:unsorted", sort=False, chunks=None),
+              dict(apicalls.BASE, ddof=None, fk_obj="fk:ddof1"),
+              dict(apicalls.BASE, ddof=None, fk_obj="fk:ddof1", func="nanstd", chunks=None)]
 
 
 def memo_tables():
